@@ -422,3 +422,85 @@ def pass_induction_case(apply_filters):
 
 for _af in (False, True):
     REG.add(pass_induction_case(_af))
+
+
+def pass_induction_generator_case(apply_filters, store):
+    """the same induction for a forecast streamed from a generator (first pass): with store=True the yielded catalogs are cached
+    and become the collection at the end of the pass, with the filter switch turned off (they are filtered already) - so the next
+    pass is a list-backed pass over FILT?(s_0) .. FILT?(s_{J-1}) without filters: the same catalogs; with store=False a fresh
+    generator is obtained from the loader and the switch stays as configured"""
+    class PIG:
+        qualname = 'lemma:C13:pass induction, generator-backed forecast, apply_filters=%s, store=%s' % (apply_filters, store)
+        case = 'inductive step k -> k+1 and exit at k == J on the real __next__'
+        properties = ('C13',)
+
+        def lemma(c):
+            J, k, nE = c.int('J'), c.int('k'), c.int('n_counts')
+            c.ctx.assume(z3.And(J >= 0, 0 <= k, k <= J, nE >= 0))
+            key = (lambda j: FILT(SRC(to_z3(j)))) if apply_filters else (lambda j: SRC(to_z3(j)))
+            Ef = c.ctx.fresh_fun('counts0', z3.IntSort(), z3.IntSort())
+            j = z3.Int('j!pi')
+            c.ctx.assume(z3.Implies(k > 0, nE == k))
+            c.ctx.assume(z3.ForAll([j], z3.Implies(z3.And(0 <= j, j < k), Ef(j) == EC(key(j))), patterns=[Ef(j)]))
+
+            def gen_next(I):
+                # the generator stands at catalog k of the J source catalogs
+                if I.ctx.branch(k < J):
+                    return mk_cat(SRC(k))
+                raise PyRaise(builtin_exc('StopIteration'), None)
+            fields = dict(_idx=k, n_cat=None, _event_counts=SymList(nE, lambda i: Ef(to_z3(i)), '_event_counts'), apply_filters=apply_filters,
+                          filters=['magnitude >= 4.0'], apply_mct=False, filter_spatial=False, store=store, region=None, name='fc', event=None,
+                          catalog_format='native', filename='f.csv', catalogs=Opaque('generator', no_len=True, next=gen_next),
+                          loader=Opaque('loader', call=lambda I, a, kw: Opaque('generator', no_len=True, fresh=True)))
+            # cached so far (store=True): the k catalogs yielded in this pass, as yielded
+            fields['_catalogs'] = SymList(k, lambda i: mk_cat(key(i)), '_catalogs')
+            o = c.obj(CF, **fields)
+            try:
+                r = c.inline(CF + '.__next__', o)
+                out = ('return', r)
+            except PyRaise as e:
+                out = ('raise', e.cls.name)
+            cnt = o.fields['_event_counts']
+            s = c.ctx.fresh_int('j!sk')
+            if out[0] == 'return':
+                r = out[1]
+                yield 'a catalog is yielded only before the end of the pass', k < J
+                yield 'it is catalog k of the pass (filters applied iff configured)', z3.And(
+                    z3.BoolVal(isinstance(r, Opaque) and r.name == 'catalog'), r.key == key(k) if isinstance(r, Opaque) else False)
+                yield 'the cursor is k + 1', to_z3(o.fields['_idx']) == k + 1
+                yield 'one count per catalog yielded so far', seq_len(cnt) == k + 1
+                yield 'count j is the event count of catalog j of this pass, for every j <= k', z3.Implies(
+                    z3.And(0 <= s, s <= k), to_z3(seq_get(cnt, s)) == EC(key(s)))
+                st = o.fields.get('_catalogs')
+                if store:
+                    yield 'the yielded catalog is cached: the cache holds the k + 1 catalogs yielded so far', z3.And(
+                        seq_len(st) == k + 1, z3.Implies(z3.And(0 <= s, s <= k), seq_key(st, s) == key(s)))
+                else:
+                    yield 'nothing is cached without store', seq_len(st) == k
+            else:
+                yield 'the only exception is StopIteration', z3.BoolVal(out[1] == 'StopIteration')
+                yield 'exactly at the end of the pass', k == J
+                yield 'the cursor is reset for the next pass', to_z3(o.fields['_idx']) == 0
+                yield 'the number of catalogs is that of this pass', to_z3(o.fields['n_cat']) == J
+                yield 'the counts left behind are those of this pass: one per catalog', z3.Implies(J > 0, seq_len(cnt) == J)
+                if not (isinstance(cnt, list) and not cnt):
+                    yield 'count j is the event count of catalog j of this pass', z3.Implies(
+                        z3.And(J > 0, 0 <= s, s < J), to_z3(seq_get(cnt, s)) == EC(key(s)))
+                cats = o.fields.get('catalogs')
+                if store:
+                    yield 'the cached catalogs become the collection', z3.BoolVal(isinstance(cats, SymList))
+                    if isinstance(cats, SymList):
+                        yield 'it holds the J catalogs of this pass, as yielded', z3.And(
+                            seq_len(cats) == J, z3.Implies(z3.And(0 <= s, s < J), seq_key(cats, s) == key(s)))
+                    yield 'filters are switched off: the cached catalogs are filtered already (no second application)', \
+                        z3.BoolVal(o.fields.get('apply_filters') is False)
+                    yield 'the cache is handed over (no second reference)', z3.BoolVal('_catalogs' not in o.fields)
+                else:
+                    yield 'a fresh generator is obtained from the loader', z3.BoolVal(isinstance(cats, Opaque) and getattr(cats, 'fresh', False))
+                    yield 'the filter switch stays as configured (the catalogs are re-read unfiltered)', z3.BoolVal(o.fields.get('apply_filters') is apply_filters)
+    PIG.__name__ = 'PassInductionGenerator_%s_%s' % (apply_filters, store)
+    return PIG
+
+
+for _af, _st in ((False, True), (True, True), (True, False), (False, False)):
+    REG.add(pass_induction_generator_case(_af, _st))
